@@ -14,7 +14,7 @@ import numpy as np
 from harness.common import enc, Z, B, opt, to_zs, is_err, err_code, kids, tag
 
 PROP = 'C04'
-GENERATORS = ['gen_array', 'gen_viewprog', 'gen_arraypure']   # gen_arraypure: C20.Model (imported through C20's lemma files) uses Gen_arraypure
+GENERATORS = ['gen_array', 'gen_viewprog', 'gen_arraypure', 'gen_axiscorr', 'gen_stat']   # gen_arraypure: C20.Model uses Gen_arraypure; gen_stat: C10.Model (imported through C10.Lemmas1) uses Gen_stat
 TRUSTED = [
     'translator tools/py2gallina.py: Gen_array.combine_slices (used by the SliceSubsetState model) is regenerated from glue/utils/array.py on every run',
     'hand model coq/C04/Model.v of SliceSubsetState.to_mask, the RoiSubsetStateNd pixel-space shortcut, CoordinateComponent._calculate (world) and '
@@ -29,6 +29,12 @@ TRUSTED = [
     'hand model of the expression language of ParsedCommand (aexpr / bexpr: {x}, constants, arange, size, sum, max, min, cumsum, roll, + - *, comparisons, & | ~) '
     'and of unique() / index_lookup() for categorical columns (cat_unique / index_lookup): tied to numpy / pandas by correspondence only; the harness renders each '
     'expression tree into the Python expression string',
+    'translator tools/gen/gen_axiscorr.py: AffineCoordinates.axis_correlation_matrix (which part of the matrix, the comparison operator and its comparand) and '
+    'dependent_axes (statement by statement into the program language dstmt) are regenerated from glue/core/coordinates.py and glue/core/coordinate_helpers.py on '
+    'every run (fail-closed); the interpreter exec_dstmt, the affine world function over Q and the p.flat[0] replacement of pixel2world_single_axis '
+    '(keep_rowdep) in coq/C04/Model.v are hand-written and tied to the code by the affine_scale correspondence (values and dependent_axes itself)',
+    'AffineCoordinates.pixel_to_world_values is modelled as exact rational arithmetic; the affine_scale stream uses matrices whose world coordinates are exactly '
+    'representable doubles (m*2^e entries), so floats and rationals agree exactly; non-dyadic matrices are compared within 8 ulp of the term magnitudes',
     'natural expressions with floating-point reductions (np.mean, np.percentile, np.median, np.std, np.argsort, np.flip) are checked by the oracle only',
 ]
 ASSUMPTIONS = [
@@ -1470,6 +1476,362 @@ def stream_parsed(R):
                        shapes, nrand, len(NATURAL_MASKS), nrand // 2, len(NATURAL_LINKS)))
 
 
+# ------------------------------------------------------------------ stream: magnitude of the coordinate matrix (round 5)
+# Every entry is  m * 2**e  with |m| in {1, 3, 5}: the exponents of the rows span 2**-40 (9e-13) .. 2**40 (1.1e12), the exponents inside one row
+# (offset included) differ by at most 24, pixel coordinates are < 8: every product and every partial sum of a world coordinate is an exactly
+# representable double (< 40 significant bits), so ANY order of evaluation gives the same float and the comparison is exact equality.
+SCALE_EXPS = [-40, -37, -34, -30, -27, -20, -10, 0, 10, 27, 40]
+AFFINE_MODEL = True
+SCALE_TINY = [-40, -37, -34, -30]
+SCALE_PATTERNS = {1: ['diag'], 2: ['diag', 'perm', 'upper', 'lower', 'dense', 'perm_shear'],
+                  3: ['diag', 'perm', 'upper', 'lower', 'shear', 'block', 'dense', 'perm_shear']}
+
+
+def _det(m):
+    if len(m) == 1:
+        return m[0][0]
+    return sum((-1) ** j * m[0][j] * _det([r[:j] + r[j + 1:] for r in m[1:]]) for j in range(len(m)) if m[0][j] != 0)
+
+
+def scale_support(nd, pattern, rng):
+    diag = {(i, i) for i in range(nd)}
+    if pattern == 'diag':
+        return diag
+    if pattern in ('perm', 'perm_shear'):
+        perms = [p for p in itertools.permutations(range(nd)) if list(p) != list(range(nd))]
+        p = rng.choice(perms)
+        sup = {(i, p[i]) for i in range(nd)}
+        if pattern == 'perm_shear':
+            free = [(i, j) for i in range(nd) for j in range(nd) if (i, j) not in sup]
+            sup.add(rng.choice(free))
+        return sup
+    if pattern == 'upper':
+        return {(i, j) for i in range(nd) for j in range(nd) if j >= i}
+    if pattern == 'lower':
+        return {(i, j) for i in range(nd) for j in range(nd) if j <= i}
+    if pattern == 'shear':
+        return diag | {rng.choice([(i, j) for i in range(nd) for j in range(nd) if i != j])}
+    if pattern == 'block':
+        a, b = rng.sample(range(nd), 2)
+        return diag | {(a, b), (b, a)}
+    return {(i, j) for i in range(nd) for j in range(nd)}
+
+
+def scale_matrix(nd, pattern, rng):
+    """(nd+1) x (nd+1) affine matrix (glue's x, y, z order) as exact fractions; non-singular; at least one row of tiny scale"""
+    from fractions import Fraction as F
+    for _ in range(100):
+        sup = scale_support(nd, pattern, rng)
+        rowexp = [rng.choice(SCALE_EXPS) for _ in range(nd)]
+        rowexp[rng.randrange(nd)] = rng.choice(SCALE_TINY)
+        m = [[F(0)] * (nd + 1) for _ in range(nd + 1)]
+        m[nd][nd] = F(1)
+        for i in range(nd):
+            for j in range(nd + 1):
+                if j == nd or (i, j) in sup:
+                    m[i][j] = F(rng.choice([1, -1, 3, -3, 5])) * F(2) ** (rowexp[i] + rng.choice([0, 0, 5, 13, 24]))
+            if rng.random() < .2:
+                m[i][nd] = F(0)
+        if _det([r[:nd] for r in m[:nd]]) != 0:
+            return m
+    raise RuntimeError('no non-singular matrix')
+
+
+NATURAL_MATRICES = [       # not dyadic: compared within a scale-aware tolerance (see scale_tol)
+    ('cube_metres', (6, 4, 5), [[0.5, 0.0, 0.0, 10.0], [0.0, 0.5, 0.0, 20.0], [0.0, 0.0, 2e-10, 5.0e-7], [0.0, 0.0, 0.0, 1.0]]),
+    ('sheared_tiny', (4, 5), [[3e-11, 7e-12, 1e-9], [0.0, 4e9, -2.5e11], [0.0, 0.0, 1.0]]),
+    ('spectrum_hz', (6,), [[-3.2e-12, 4.1e-10], [0.0, 1.0]]),
+    ('permuted', (3, 4, 2), [[0.0, 1.7e11, 0.0, 3e10], [0.0, 0.0, 6e-10, -1e-9], [2.5e-9, 0.0, 0.0, 0.0], [0.0, 0.0, 0.0, 1.0]]),
+]
+
+
+def scale_dataset(mat, shape):
+    G.load()
+    m = np.array([[float(x) for x in r] for r in mat])
+    n = int(np.prod(shape))
+    return G.Data(x=np.arange(n, dtype=float).reshape(shape), coords=G.AffineCoordinates(m), label='s')
+
+
+def affine_reference(mat, shape, axis):
+    """world coordinate of numpy axis `axis` from the definition: row nd-1-axis of the matrix applied to (x, y, z, 1)"""
+    nd = len(shape)
+    row = [float(x) for x in mat[nd - 1 - axis]]
+    grid = np.indices(shape)
+    out = np.full(shape, row[nd])
+    for j in range(nd):
+        out = out + row[j] * grid[nd - 1 - j]
+    return out
+
+
+def scale_tol(mat, shape, axis):
+    """bound on the rounding error of any order of evaluating row . (pixel, 1) in doubles: 8 ulp of the sum of the magnitudes of the terms"""
+    nd = len(shape)
+    row = [abs(float(x)) for x in mat[nd - 1 - axis]]
+    return 8 * np.finfo(float).eps * (row[nd] + sum(row[j] * (shape[nd - 1 - j] - 1) for j in range(nd)))
+
+
+def scale_states(d, mat, shape, exact):
+    """selections on world attributes (JSON-able description, state); thresholds sit on / between values of the attribute itself"""
+    S, ROI = G.S, G.ROI
+    nd = len(shape)
+    out = []
+    w = d.world_component_ids
+    for a in range(nd):
+        vals = np.unique(affine_reference(mat, shape, a))
+        if len(vals) < 2:
+            continue
+        if exact:
+            lo, hi = float(vals[len(vals) // 3]), float(vals[(2 * len(vals)) // 3])
+            t = float(vals[len(vals) // 2])
+        else:   # mid-way between two values of the attribute: far outside the rounding band
+            k = len(vals) // 3
+            lo = float(vals[k] + vals[k + 1]) / 2 if k + 1 < len(vals) else float(vals[k])
+            k2 = min(len(vals) - 2, (2 * len(vals)) // 3)
+            hi = float(vals[k2] + vals[k2 + 1]) / 2
+            t = float(vals[len(vals) // 2 - 1] + vals[len(vals) // 2]) / 2
+            gaps = np.diff(vals)
+            if gaps.min() < 64 * scale_tol(mat, shape, a):
+                continue
+        out.append((['range', a, lo, hi], S.RangeSubsetState(min(lo, hi), max(lo, hi), att=w[a])))
+        out.append((['gt', a, t], w[a] > t))
+        if exact:
+            out.append((['le', a, t], w[a] <= t))
+        if nd >= 2:
+            b = (a + 1) % nd
+            vb = np.unique(affine_reference(mat, shape, b))
+            if not exact:
+                continue
+            out.append((['roi_ww', a, b, float(vals[0]), float(vals[-1]), float(vb[0]), float(vb[-1])],
+                        S.RoiSubsetState(w[a], w[b], ROI.RectangularROI(float(vals[0]), float(vals[-1]), float(vb[0]), float(vb[-1])))))
+            out.append((['roi_pw', b, a, -0.5, 1.5, lo, hi],
+                        S.RoiSubsetState(d.pixel_component_ids[b], w[a], ROI.RectangularROI(-0.5, 1.5, min(lo, hi), max(lo, hi)))))
+    return out
+
+
+def scale_state_from(d, desc):
+    S, ROI = G.S, G.ROI
+    w = d.world_component_ids
+    k = desc[0]
+    if k == 'range':
+        return S.RangeSubsetState(min(desc[2], desc[3]), max(desc[2], desc[3]), att=w[desc[1]])
+    if k == 'gt':
+        return w[desc[1]] > desc[2]
+    if k == 'le':
+        return w[desc[1]] <= desc[2]
+    if k == 'roi_ww':
+        return S.RoiSubsetState(w[desc[1]], w[desc[2]], ROI.RectangularROI(*desc[3:7]))
+    if k == 'roi_pw':
+        return S.RoiSubsetState(d.pixel_component_ids[desc[1]], w[desc[2]], ROI.RectangularROI(desc[3], desc[4], min(desc[5], desc[6]), max(desc[5], desc[6])))
+    raise ValueError(desc)
+
+
+def same_tol(a, b, tol):
+    a, b = np.asarray(a), np.asarray(b)
+    if a.shape != b.shape:
+        return 'shape %s vs %s' % (list(a.shape), list(b.shape))
+    if tol == 0 or a.dtype.kind == 'b':
+        return same(a, b)
+    return None if bool(np.all(np.abs(a - b) <= tol)) else 'values differ by more than %r' % tol
+
+
+def q_enc(x):
+    from fractions import Fraction as F
+    f = F(x)
+    return (0, [f.numerator, f.denominator])
+
+
+def line_affine(shape, mat, axis, vd):
+    nd = len(shape)
+    return enc((9, [Z(shape), (0, [(0, [q_enc(x) for x in r]) for r in mat]), axis, view_enc(vd)]))
+
+
+def scale_request(d, case, v):
+    """the request of one case on dataset d (fresh or not) as a thunk; everything, incl. building the IndexedData, happens inside it"""
+    def thunk():
+        kind = case['kind']
+        if kind == 'att':
+            cid = d.world_component_ids[case['axis']]
+            return d.get_data(cid, view=v) if v is not None else d[cid]
+        if kind == 'mask':
+            return d.get_mask(scale_state_from(d, case['sel']), view=v)
+        idx = tuple(case['indices'])
+        if case.get('reassigned'):
+            ix = G.IndexedData(d, tuple(None if i is None else 0 for i in idx))
+            ix.indices = idx
+        else:
+            ix = G.IndexedData(d, idx)
+        if kind == 'indexed_att':
+            cid = d.world_component_ids[case['axis']]
+            return ix.get_data(cid, view=v) if v is not None else ix.get_data(cid)
+        st = scale_state_from(d, case['sel'])
+        return ix.get_mask(st, view=v) if v is not None else ix.get_mask(st)
+    return thunk
+
+
+def scale_full(d, case):
+    """the full-size result the view is compared with (the implementation's own), sliced by the indices for IndexedData"""
+    if case['kind'] in ('att', 'indexed_att'):
+        full = np.asarray(d[d.world_component_ids[case['axis']]])
+    else:
+        full = np.asarray(d.get_mask(scale_state_from(d, case['sel'])))
+    if case['kind'].startswith('indexed'):
+        full = full[tuple(slice(None) if i is None else i for i in case['indices'])]
+    return full
+
+
+def stream_affine_scale(R):
+    G.load()
+    from fractions import Fraction as F
+    shapes = R.pick([(6,), (4, 5), (5, 3, 4)], [(6,), (4, 5), (3, 3), (5, 3, 4), (2, 4, 3)])
+    nmat = R.pick(1, 3)
+    alphabet = ALPHABET + [[2, None, 2]]
+    pending = []
+    ncases = 0
+    nmodel = 0
+    plans = []
+    for shape in shapes:
+        nd = len(shape)
+        for pattern in SCALE_PATTERNS[nd]:
+            for k in range(nmat if nd > 1 else 3 * nmat):
+                rng = R.subrng('affine_scale', '%r|%s|%d' % (shape, pattern, k))
+                plans.append((shape, pattern, scale_matrix(nd, pattern, rng), True, rng))
+    for name, shape, m in NATURAL_MATRICES:
+        plans.append((shape, name, [[F(x) for x in r] for r in m], False, R.subrng('affine_scale', name)))
+
+    def one(d, case, v, exp, tol, what, model=None):
+        nonlocal ncases
+        got = call(scale_request(d, case, v))
+        ncases += 1
+        e = np.asarray(exp)
+        trivial = case['view'] in ('none', 'ellipsis') or e.size == 0 or (e.dtype.kind == 'b' and not e.any())
+        R.count((tuple(case['shape']), repr(case['matrix']), what, repr(case.get('axis')), repr(case.get('sel')), repr(case.get('indices')), repr(case['view']), case['order']),
+                nontrivial=not trivial, stream='affine_scale', what='scale:' + what, view=view_kind(case['view']), pattern=case['pattern'], ndim=len(case['shape']))
+        if got[0] == 'err':
+            R.fail('oracle', case, {'raises': got[1], 'message': got[2], 'expected_shape': list(e.shape)}, key=finding_key(case))
+        else:
+            diff = same_tol(got[1], e, tol)
+            if diff:
+                R.fail('oracle', case, {'difference': diff, 'result': np.asarray(got[1]).tolist(), 'expected': e.tolist()}, key=finding_key(case))
+        if model is not None:
+            pending.append((case, got, model))
+
+    for shape, pattern, mat, exact, rng in plans:
+        nd = len(shape)
+        fm = [[float(x) for x in r] for r in mat]
+        base = {'stream': 'affine_scale', 'shape': list(shape), 'pattern': pattern, 'matrix': fm, 'exact': exact}
+        try:
+            d = scale_dataset(mat, shape)
+        except np.linalg.LinAlgError:
+            continue
+        twin = scale_dataset(mat, shape)          # nothing is evaluated on the twin before its views
+        views = all_views(shape, rng, alphabet)
+        vobjs = [view_obj(v) for v in views]
+        # ---- world attributes: full-first on d, view-first on the twin (the full array last), a rotating few on brand-new datasets
+        for a in range(nd):
+            tol = 0 if exact else scale_tol(mat, shape, a)
+            full = np.asarray(d[d.world_component_ids[a]])
+            ref = affine_reference(mat, shape, a)
+            ncases += 1
+            R.count((tuple(shape), repr(fm), 'reference', a), nontrivial=True, stream='affine_scale', what='scale:reference', view='reference', pattern=pattern, ndim=nd)
+            diff = same_tol(full, ref, tol)
+            if diff:
+                R.fail('oracle', dict(base, kind='att', axis=a, view='none', order='full-first', against='reference'),
+                       {'difference': diff, 'result': full.tolist(), 'expected': ref.tolist()}, key=None)
+            for i, (vd, v) in enumerate(zip(views, vobjs)):
+                exp = expected_view(full, v)
+                if exp[0] == 'err':
+                    continue
+                case = dict(base, kind='att', axis=a, view=vd, order='full-first')
+                one(d, case, v, exp[1], tol, 'att', model=line_affine(shape, mat, a, vd) if (AFFINE_MODEL and is_basic(vd)) else None)
+                one(twin, dict(case, order='view-first'), v, exp[1], tol, 'att')
+                if (i + a) % 97 == 3:
+                    one(scale_dataset(mat, shape), dict(case, order='fresh'), v, exp[1], tol, 'att')
+            tfull = np.asarray(twin[twin.world_component_ids[a]])
+            if same(tfull, full):
+                R.fail('oracle', dict(base, kind='att', axis=a, view='none', order='view-first', against='full-first'),
+                       {'difference': 'the full array after the views differs from the full array asked first'}, key=None)
+        # ---- selections on world attributes
+        states = scale_states(d, mat, shape, exact)
+        for si, (desc, st) in enumerate(states):
+            full = np.asarray(d.get_mask(st))
+            for i, (vd, v) in enumerate(zip(views, vobjs)):
+                if nd == 3 and is_basic(vd) and not isinstance(vd, str) and (i + si) % 4:
+                    continue          # a rotating quarter of the basic views per selection in 3-d
+                exp = expected_view(full, v)
+                if exp[0] == 'err':
+                    continue
+                case = dict(base, kind='mask', sel=desc, view=vd, order='full-first')
+                one(d, case, v, exp[1], 0, 'mask:' + desc[0])
+                if (i + si) % 5 == 0:
+                    one(twin, dict(case, order='view-first'), v, exp[1], 0, 'mask:' + desc[0])
+        # ---- IndexedData with indices other than 0 (from either end), fresh and reassigned
+        if nd >= 2:
+            for pat in itertools.product([None, 'i'], repeat=nd):
+                if all(p is None for p in pat) or all(p == 'i' for p in pat):
+                    continue
+                for trial in range(2):
+                    idx = [None if p is None else (rng.randrange(1, s) if rng.random() < .7 else -rng.randrange(1, s)) for p, s in zip(pat, shape)]
+                    psl = tuple(slice(None) if i is None else i for i in idx)
+                    rshape = tuple(s for s, i in zip(shape, idx) if i is None)
+                    rviews = ['none', ['tuple', [[1, None, None]]], ['tuple', [-1]], ['tuple', [[0, None, 2]] * len(rshape)],
+                              ['bool', np.array([rng.random() < .6 for _ in range(int(np.prod(rshape)))]).reshape(rshape).tolist()],
+                              ['idx', [[rng.randrange(-s, s) for _ in range(3)] for s in rshape]]]
+                    for a in range(nd):
+                        tol = 0 if exact else scale_tol(mat, shape, a)
+                        full = np.asarray(d[d.world_component_ids[a]])[psl]
+                        for vd in rviews:
+                            v = view_obj(vd)
+                            exp = expected_view(full, v)
+                            if exp[0] == 'err':
+                                continue
+                            one(d, dict(base, kind='indexed_att', axis=a, indices=idx, reassigned=bool(trial), view=vd, order='full-first'), v, exp[1], tol, 'indexed_att')
+                    for desc, st in states[::2]:
+                        full = np.asarray(d.get_mask(st))[psl]
+                        for vd in rviews[:3] + rviews[4:5]:
+                            v = view_obj(vd)
+                            exp = expected_view(full, v)
+                            if exp[0] == 'err':
+                                continue
+                            one(d, dict(base, kind='indexed_mask', sel=desc, indices=idx, reassigned=bool(trial), view=vd, order='full-first'), v, exp[1], 0, 'indexed_mask')
+    # ---- the model: dependent axes computed from the matrix by the TRANSLATED predicate and closure, affine world function over Q
+    if pending:
+        outs = R.model([p[2] for p in pending])
+        deps = {}
+        for (case, got, _), o in zip(pending, outs):
+            nmodel += 1
+            if is_err(o) or got[0] == 'err':
+                if is_err(o) != (got[0] == 'err'):
+                    R.fail('correspondence', case, {'model': 'error' if is_err(o) else 'ok', 'impl': got[0]})
+                continue
+            sh = to_zs(kids(o)[0])
+            vals = [F(tag(kids(q)[0]), tag(kids(q)[1])) for q in kids(kids(o)[1])]
+            mdep = to_zs(kids(o)[2])
+            res = np.asarray(got[1])
+            key = (repr(case['matrix']), case['axis'])
+            if key not in deps:
+                dd = scale_dataset([[F(x) for x in r] for r in case['matrix']], tuple(case['shape']))
+                deps[key] = [int(x) for x in G.dependent_axes(dd.coords, case['axis'])]
+            if deps[key] != mdep:
+                R.fail('correspondence', case, {'what': 'dependent_axes', 'model': mdep, 'impl': deps[key]})
+            if tuple(sh) != res.shape:
+                R.fail('correspondence', case, {'model_shape': sh, 'impl_shape': list(res.shape)})
+            elif case['exact']:
+                if [F(float(x)) for x in res.ravel()] != vals:
+                    R.fail('correspondence', case, {'model': [float(x) for x in vals], 'impl': res.ravel().tolist()})
+            else:
+                tol = scale_tol([[F(x) for x in r] for r in case['matrix']], tuple(case['shape']), case['axis'])
+                if not all(abs(F(float(x)) - y) <= tol for x, y in zip(res.ravel(), vals)):
+                    R.fail('correspondence', case, {'model': [float(x) for x in vals], 'impl': res.ravel().tolist(), 'tolerance': tol})
+    R.sample({'stream': 'affine_scale', 'shape': [6, 4, 5], 'pattern': 'cube_metres', 'matrix': NATURAL_MATRICES[0][2], 'exact': False, 'kind': 'att', 'axis': 0,
+              'view': ['tuple', [[2, 5, None]]], 'order': 'full-first'})
+    R.stream('affine_scale', cases=ncases, model_cases=nmodel, exhaustive=False,
+             bound='AffineCoordinates on shapes %s: per coupling pattern %s, %d matrices with entries m*2^e, |m| in {1,3,5}, row exponents over %s (one row always tiny), '
+                   'exponents inside a row differing by <= 24 (all sums exact doubles); plus %d non-dyadic matrices in small physical units within 8 ulp of the term magnitudes; '
+                   'world attributes under every view of the domain + [2::2], full-first / view-first (twin) / brand-new dataset; masks of range / inequality / ROI selections on '
+                   'world attributes; IndexedData with non-zero indices from either end, fresh and reassigned; the full array also against the definition'
+                   % (shapes, SCALE_PATTERNS, nmat, SCALE_EXPS, len(NATURAL_MATRICES)))
+
+
 # ------------------------------------------------------------------ malformed
 def stream_malformed(R):
     G.load()
@@ -1515,6 +1877,7 @@ def run(R):
     stream_indexed(R)
     stream_order(R)
     stream_parsed(R)
+    stream_affine_scale(R)
     stream_malformed(R)
 
 
@@ -1644,6 +2007,35 @@ def replay(R, case):
         out['implementation'] = np.asarray(got[1]).tolist() if got[0] == 'ok' else list(got)
         out['detail'] = bad
         out['violates'] = bool(bad)
+    elif st == 'affine_scale':
+        from fractions import Fraction as F
+        shape = tuple(case['shape'])
+        mat = [[F(x) for x in r] for r in case['matrix']]
+        d = scale_dataset(mat, shape)
+        if case.get('against') == 'reference':
+            full = np.asarray(d[d.world_component_ids[case['axis']]])
+            ref = affine_reference(mat, shape, case['axis'])
+            out['expected'], out['implementation'] = ref.tolist(), full.tolist()
+            out['violates'] = same_tol(full, ref, 0 if case['exact'] else scale_tol(mat, shape, case['axis'])) is not None
+            return out
+        if case.get('against') == 'full-first':
+            out['note'] = 'replay by re-running the stream: ./check C04 --tier quick'
+            out['violates'] = False
+            return out
+        v = view_obj(case['view'])
+        tol = scale_tol(mat, shape, case['axis']) if (not case['exact'] and case['kind'] in ('att', 'indexed_att')) else 0
+        if case['order'] == 'full-first':
+            full = scale_full(d, case)
+            got = call(scale_request(d, case, v))
+        else:                                   # the view first on a dataset on which nothing has been evaluated, the full array from a second one
+            got = call(scale_request(d, case, v))
+            full = scale_full(scale_dataset(mat, shape), case)
+        exp = expected_view(full, v)
+        out['expected'] = np.asarray(exp[1]).tolist() if exp[0] == 'ok' else exp
+        out['implementation'] = np.asarray(got[1]).tolist() if got[0] == 'ok' else list(got)
+        out['violates'] = exp[0] == 'ok' and (got[0] == 'err' or same_tol(got[1], exp[1], tol) is not None)
+        if R.model_available and AFFINE_MODEL and case['kind'] == 'att' and is_basic(case['view']):
+            out['model'] = R.model([line_affine(shape, mat, case['axis'], case['view'])])[0]
     else:
         out['note'] = 'replay by re-running the stream: ./check C04 --tier quick'
         out['violates'] = False
